@@ -1264,23 +1264,30 @@ fn limits_e2e_body(c: &Comp3Case, rec: &mut Rec) -> CaseResult {
         rec.discard(format!("truth-{}", truth.kind()));
         return Ok(());
     }
-    let mode = crate::core::fixed_hash(&[b"c09-limits-e2e", c.zone.as_str().as_bytes(), c.q.as_str().as_bytes(), &c.qtype.to_le_bytes()]) % 3;
-    let (soft, hard) = match mode {
-        0 => (it - 1, 500),
-        1 => (it - 1, it - 1),
-        _ => (it, it),
+    let mode = crate::core::fixed_hash(&[b"c09-limits-e2e", c.zone.as_str().as_bytes(), c.q.as_str().as_bytes(), &c.qtype.to_le_bytes()]) % 5;
+    // what is handed to the builder, and the limits that are then in force (defaults 100 / 500)
+    let (arg_soft, arg_hard, soft, hard) = match mode {
+        0 => (Some(it - 1), Some(500), it - 1, 500),
+        1 => (Some(it - 1), Some(it - 1), it - 1, it - 1),
+        2 => (Some(it), Some(it), it, it),
+        // only the hard limit is set, below the default soft limit
+        3 => (None, Some(it - 1), 100, it - 1),
+        // both set, the hard limit below the soft one
+        _ => (Some(it + 7), Some(it - 1), it + 7, it - 1),
     };
     rec.class(match mode {
         0 => "limits:soft-below-iterations",
         1 => "limits:hard-below-iterations",
-        _ => "limits:equal-to-iterations",
+        2 => "limits:equal-to-iterations",
+        3 => "limits:only-hard-set,below-iterations-and-below-default-soft",
+        _ => "limits:hard-below-iterations-below-soft",
     });
-    let configured = super::c08::e2e_query(hz, &qn, c.qtype, Some((soft, hard)))?;
+    let configured = super::c08::e2e_query_opt(hz, &qn, c.qtype, Some((arg_soft, arg_hard)))?;
     let default = super::c08::e2e_query(hz, &qn, c.qtype, Some((100, 500)))?;
     let secure = |v: &E2eVerdict| matches!(v, E2eVerdict::Accepted { all_secure: true, .. });
     let render = || {
         format!(
-            "zone [{}] {} query {qn} {} truth {truth}: nsec3_iteration_limits(soft {soft}, hard {hard}) -> {configured:?}; defaults (100, 500) -> {default:?}",
+            "zone [{}] {} query {qn} {} truth {truth}: nsec3_iteration_limits({arg_soft:?}, {arg_hard:?}) -> {configured:?}; defaults (100, 500) -> {default:?}",
             zone.render(),
             c.params.show(),
             ty::mnemonic(c.qtype)
@@ -1293,7 +1300,7 @@ fn limits_e2e_body(c: &Comp3Case, rec: &mut Rec) -> CaseResult {
             rec.note(render());
         }
     }
-    if it > soft {
+    if it > soft || it > hard {
         // RFC 9276 3.2 as configured: above the soft limit never Secure, above the hard limit an error
         vensure!(!secure(&configured), "nsec3-configured-iteration-limit-not-applied-end-to-end", "{}", render());
         if it > hard {
